@@ -35,7 +35,7 @@ PANIC_CALLS = ('::unwrap', '::expect', '::unwrap_err', '::expect_err', 'core::pa
 NOT_PANIC = ('core::mem::swap', 'core::sync::atomic::Atomic::swap', 'core::ptr::swap')
 RESOURCE = ('alloc::string::String::with_capacity', 'alloc::vec::Vec::with_capacity', 'std::thread::functions::spawn',
             'std::io::buffered::bufwriter::BufWriter::with_capacity')
-FLOOR_SITES = 30
+FLOOR_SITES = 15      # today: ~44; a tree that writes its size hints with saturating_* has about half of them
 
 
 def allowlist():
@@ -63,6 +63,29 @@ def library_bodies(ctx):
     return out
 
 
+def _len_positive(d, labels):
+    """the receiver x when the guard (term d, taken on all of `labels`) says len(x) >= 1; None otherwise"""
+    if d[0] != 'bin' or not labels or any(l[0] != 'bool' for l in labels):
+        return None
+    vals = {l[1] for l in labels}
+    if len(vals) != 1:
+        return None
+    val = vals.pop()
+    op, a, c = d[1], norm(d[2]), norm(d[3])
+    flip = {'Lt': 'Gt', 'Gt': 'Lt', 'Le': 'Ge', 'Ge': 'Le', 'Eq': 'Eq', 'Ne': 'Ne'}
+    if a[0] == 'const' and c[0] != 'const':
+        a, c, op = c, a, flip.get(op)
+    if op is None or c[0] != 'const' or not (a[0] == 'call' and isinstance(a[1], str) and a[1].endswith('::len') and len(a[2]) == 1):
+        return None
+    neg = {'Lt': 'Ge', 'Ge': 'Lt', 'Gt': 'Le', 'Le': 'Gt', 'Eq': 'Ne', 'Ne': 'Eq'}
+    if not val:
+        op = neg[op]
+    k = str(c[2])
+    if (op, k) in (('Ne', '0'), ('Gt', '0'), ('Ge', '1')):
+        return a[2][0]
+    return None
+
+
 def unsigned_leafs_ok(t, qleaf):
     """t is a sum/product of non-negative `size-like` leaves"""
     t = norm(t)
@@ -72,6 +95,8 @@ def unsigned_leafs_ok(t, qleaf):
         return unsigned_leafs_ok(t[2], qleaf) and unsigned_leafs_ok(t[3], qleaf)
     if t[0] == 'phi':
         return all(unsigned_leafs_ok(x, qleaf) for x in t[1])
+    if t[0] == 'call' and isinstance(t[1], str) and t[1].endswith(('::saturating_add', '::saturating_mul', '::wrapping_add')) and len(t[2]) == 2:
+        return unsigned_leafs_ok(t[2][0], qleaf) and unsigned_leafs_ok(t[2][1], qleaf)      # a sum that cannot panic
     if t[0] == 'const':
         return True
     if t[0] == 'cast' and t[1] == 'IntToInt':
@@ -544,6 +569,12 @@ def discharge(ctx, m, inv_ok, cr, b, bi, kind, term, T):
                         for ln in lens:
                             if peel(ln[2][0]) == peel(d[2][0]):
                                 return True, 'D1: sum of lengths including len(x) minus 1, under !x.is_empty()'
+                    # the same test spelt on the length: len(x) != 0, len(x) > 0, len(x) >= 1, 0 < len(x) ...
+                    pos = _len_positive(d, labels)
+                    if pos is not None:
+                        for ln in lens:
+                            if peel(ln[2][0]) == peel(pos):
+                                return True, 'D1: sum of lengths including len(x) minus 1, under len(x) >= 1'
         return False, 'subtraction %s is not provably non-negative: underflow panics (debug) / wraps (release)' % fmt(inner)[:120]
     if msg.startswith('Overflow(Add)') or msg.startswith('Overflow(Mul)'):
         if inner is None:
